@@ -164,15 +164,22 @@ Proof.
   unfold gauss_step, G; simpl. rewrite gact_app, map_app, map_length, map_repeat, gact_repeat. reflexivity.
 Qed.
 
-(* bosonic add_mode coincides with the Gaussian one exactly for one new mode *)
+(* the repaired bosonic add_mode is the Gaussian one *)
+Lemma bos_step_gauss b o : bos_step b o = gauss_step b o.
+Proof. destruct o; try reflexivity. unfold bos_step, gauss_step. rewrite Nat.add_sub. reflexivity. Qed.
+
+Lemma bos_step_ok s o s' : sstep s o = Some s' -> bos_step (G s) o = (G s', Ok).
+Proof. intros H. rewrite bos_step_gauss. apply gauss_step_ok; exact H. Qed.
+
+(* the old bosonic add_mode coincides with it exactly for one new mode *)
 Definition new_le1 (o : op) : bool := match o with New n => n <=? 1 | _ => true end.
 
-Lemma bos_step_ok s o s' : new_le1 o = true -> sstep s o = Some s' -> bos_step (G s) o = (G s', Ok).
+Lemma bos_step_old_ok s o s' : new_le1 o = true -> sstep s o = Some s' -> bos_step_old (G s) o = (G s', Ok).
 Proof.
   intros Hn H. rewrite <- (gauss_step_ok s o s' H).
   destruct o as [n|l|i k|i j|l|f]; try reflexivity.
   simpl in Hn, H. destruct n as [|[|n]]; [discriminate H | | discriminate Hn].
-  unfold bos_step, gauss_step. simpl. rewrite Nat.add_sub. reflexivity.
+  unfold bos_step_old, gauss_step. simpl. rewrite Nat.add_sub. reflexivity.
 Qed.
 
 (* ---- observations *)
@@ -197,8 +204,14 @@ Proof.
   - rewrite E, L. apply IH.
 Qed.
 
+Lemma ps_state_G s : ps_state (G s) = view s.
+Proof. unfold ps_state. rewrite ps_modes_G. apply (read_by_index s []). Qed.
+
+Lemma gauss_state_G s : gauss_state (G s) = view s.
+Proof. apply ps_state_G. Qed.
+
 Lemma bos_state_G s : bos_state (G s) = view s.
-Proof. unfold bos_state. rewrite ps_modes_G. apply (read_by_index s []). Qed.
+Proof. apply ps_state_G. Qed.
 
 (* reading slots 0..#live-1 is right exactly when nothing live sits behind a dead index *)
 Definition prefix_live (s : sstate) : Prop := exists ds k, s = map Some ds ++ repeat None k.
@@ -220,8 +233,8 @@ Qed.
 Lemma dat_prefix : forall ds k, firstn (length ds) (map dat (map Some ds ++ repeat None k)) = ds.
 Proof. induction ds as [|d ds IH]; intros k; simpl; [reflexivity|]. rewrite IH; reflexivity. Qed.
 
-Lemma gauss_state_G_prefix s : prefix_live s -> gauss_state (G s) = view s.
+Lemma gauss_state_old_G_prefix s : prefix_live s -> gauss_state_old (G s) = view s.
 Proof.
-  intros [ds [k ->]]. unfold gauss_state. rewrite ps_modes_G. unfold slives, view.
+  intros [ds [k ->]]. unfold gauss_state_old. rewrite ps_modes_G. unfold slives, view.
   rewrite somes_prefix, view_prefix, seq_length. unfold G; simpl pslots. rewrite dat_prefix. reflexivity.
 Qed.
